@@ -173,7 +173,7 @@ def to_coq(c, out):
         clist(s['s2b'], lambda e: '(%s, %s)' % (ckey(e[0]), cblock(e[1]))),
         clist(s['e2b'], lambda e: '(%s, %s)' % (ckey(e[0]), cblock(e[1]))),
         clist(s['alloc'], cblock), clist(s['arenas']), cz(s['nsize']), clist(s['pending'], cblock))
-    return '(%s, %s, %s, %s, %s)' % (cz(c['pg']), cz(c['size']), clist(c['ops'], cop), obs, snap)
+    return '((%s, %s, %s, %s, %s) : Heap.case)' % (cz(c['pg']), cz(c['size']), clist(c['ops'], cop), obs, snap)
 
 
 # --------------------------------------------------------------------- the property, on the implementation trace
